@@ -184,7 +184,11 @@ define("alloc_wf(p)",
 contract("BaseProject.__allocate", props=["C03", "C04", "C06", "C11", "C13"],
          types={"task_priority_rule": "Enum(TaskPriorityRuleMode)"},
          requires=["self.workflow is not None and self.organization is not None",
-                   "holds_exclusively(self.workflow)"],
+                   "holds_exclusively(self.workflow)",
+                   # C04 / C10: allocation sees resource states that are fresh from the absence lists of THIS step (an absent
+                   # worker is ABSENCE, not FREE) - proved at the call site in simulate, so a phase moved in between is noticed
+                   "forall(self.organization.team_list, lambda t: forall(t.worker_list, lambda w: w.state == w_state_rule(w, self.time)))",
+                   "forall(self.organization.workplace_list, lambda p: forall(p.facility_list, lambda f: f.state == f_state_rule(f, self.time)))"],
          bounded_requires=["alloc_wf(self)"],
          ensures=[("bounded:consistency-preserved", "holds_exclusively(self.workflow)"),
                   ("bounded:placed-components-not-none", "forall_obj('BaseWorkplace', lambda p: forall(p.placed_component_list, lambda c: c is not None))"),
